@@ -1,7 +1,10 @@
 #!/usr/bin/env python3
 """Applies a seeded change to /repo, runs checks against it, and ALWAYS reverts /repo afterwards.
 
-  tools/run_seeded.py <patch.diff> [--checks C01,C16] [--tier quick]
+  tools/run_seeded.py <patch.diff> [--checks C01,C16] [--tier quick] [--copy]
+
+With --copy the patch is applied to a scratch worktree of /repo's HEAD (bootstrap files copied in) and the checks run with
+VERIF_REPO pointing there: /repo itself is not touched (for use while a long background run is using /repo).
 
 Prints, per check, the exit code and the VIOLATION / KNOWN-FINDING lines.  /repo must be clean (tracked files) before.
 Evidence files written during these runs are restored from git afterwards (they describe a mutated tree).
@@ -25,19 +28,28 @@ def main():
         checks = sys.argv[sys.argv.index("--checks") + 1].split(",")
     if "--tier" in sys.argv:
         tier = sys.argv[sys.argv.index("--tier") + 1]
-    st = sh("git -C /repo status --porcelain --untracked-files=no").stdout.strip()
+    copy = "--copy" in sys.argv
+    repo = "/repo"
+    if copy:
+        repo = "/var/tmp/snoopy-verif/seedrepo-%d" % os.getpid()
+        sh("git -C /repo worktree remove --force %s" % repo)
+        r = sh("sh %s/tools/mk_worktree.sh %s" % (V, repo))
+        if r.returncode != 0:
+            print("cannot create scratch worktree: " + r.stderr[-300:])
+            return 2
+    st = sh("git -C %s status --porcelain --untracked-files=no" % repo).stdout.strip()
     if st:
         print("refusing: /repo has uncommitted tracked changes:\n" + st)
         return 2
-    r = sh("git -C /repo apply --check %s" % patch)
+    r = sh("git -C %s apply --check %s" % (repo, patch))
     if r.returncode != 0:
         print("patch does not apply to /repo HEAD: " + r.stderr[-500:])
         return 2
-    sh("git -C /repo apply %s" % patch)
+    sh("git -C %s apply %s" % (repo, patch))
     results = {}
     try:
         for c in checks:
-            env = dict(os.environ, VERIF_TIER=tier)
+            env = dict(os.environ, VERIF_TIER=tier, VERIF_REPO=repo)
             p = subprocess.run([sys.executable, os.path.join(V, "verif.py"), "check", c], capture_output=True, text=True, env=env, cwd=V)
             lines = [l for l in p.stdout.splitlines() if l.startswith(("VIOLATION", "KNOWN-FINDING", "HARNESS-FAILURE", "  key="))]
             results[c] = (p.returncode, lines)
@@ -47,8 +59,11 @@ def main():
             if p.returncode == 2:
                 print("   stderr tail: " + p.stderr[-600:])
     finally:
-        sh("git -C /repo checkout -- .")
-        sh("git -C /repo clean -fdq -- src lib")        # files a patch may have added
+        if copy:
+            sh("git -C /repo worktree remove --force %s" % repo)
+        else:
+            sh("git -C /repo checkout -- .")
+            sh("git -C /repo clean -fdq -- src lib")        # files a patch may have added
         sh("git -C %s checkout -- evidence" % V)
     caught = [c for c, (rc, _) in results.items() if rc == 1]
     print("CAUGHT-BY: %s" % (",".join(caught) if caught else "none"))
